@@ -54,3 +54,26 @@ func Harness_smoke_parse() {
 		}
 	}
 }
+
+// Harness_parse_file_equals_stream: ParseFileCallback on a file delivers exactly what
+// ParseStreamCallback delivers on the file's content - for ordinary files and for the edge cases
+// of readers that look ahead: one- and two-byte files, a file without a final newline, an empty
+// file, a leading byte order mark.
+func Harness_parse_file_equals_stream() {
+	contents := []string{"", "7", "a:", "a\n", "a:\n  b: 1", "d0:\n  a: 1\nd1:\n  b: 2\n", "\xef\xbb\xbfd0:\n  a: 1\n", "# c\n", "d0:\n  a:1\n"}
+	c := contents[verifChoose("content", len(contents))]
+	verifLabel("content", c)
+	fromFile, fromStream := &hRec{}, &hRec{}
+	ferr := ParseFileCallback(verifFile("f", c), NewDefaultConfig(), fromFile.cb)
+	serr := ParseStreamCallback(strings.NewReader(c), NewDefaultConfig(), fromStream.cb)
+	verifCover("parsed")
+	verifAssert("record-count", len(fromFile.nodes) == len(fromStream.nodes))
+	verifAssert("no-error-reported", (ferr == nil) == (serr == nil) && len(fromFile.errs) == len(fromStream.errs))
+	if len(fromFile.nodes) == len(fromStream.nodes) {
+		for i := range fromFile.nodes {
+			a, b := fromFile.nodes[i], fromStream.nodes[i]
+			verifAssert("record-header", a.Header == b.Header)
+			verifAssert("entry-count", len(a.Elements) == len(b.Elements))
+		}
+	}
+}
